@@ -440,6 +440,12 @@ def _norm_joined(js):
             else:
                 vals.append(ast.Constant(v.value))
         else:
+            if isinstance(v, ast.FormattedValue) and isinstance(v.value, ast.Constant) and isinstance(v.value.value, str) and v.format_spec is None and v.conversion in (-1, 115):
+                if vals and isinstance(vals[-1], ast.Constant):
+                    vals[-1] = ast.Constant(vals[-1].value + v.value.value)
+                else:
+                    vals.append(ast.Constant(v.value.value))
+                continue
             if isinstance(v, ast.FormattedValue):
                 # {x!s} == {x} for the str/int/bytes-free uses this code base has: conversion 's' without a spec is dropped
                 if v.conversion == 115 and v.format_spec is None:
@@ -700,7 +706,7 @@ def _merge_branches(test, body, orelse):
 
 
 def _cond_assign(stmts, bound):
-    """if c: x = A   (no else; x certainly bound before)   ->   x = A if c else x"""
+    """if c: x = A   (no else; x certainly bound before)   ->   x = A if c else x        (all blocks; `bound` = names bound on every path here)"""
     out = []
     bound = set(bound)
     for st in stmts:
@@ -708,6 +714,14 @@ def _cond_assign(stmts, bound):
             t, v = _single_assign(st.body)
             if t is not None and t in bound:
                 st = ast.Assign(targets=[ast.Name(id=t, ctx=ast.Store())], value=ast.IfExp(test=st.test, body=v, orelse=ast.Name(id=t, ctx=ast.Load())))
+        if isinstance(st, ast.If):
+            st = ast.If(test=st.test, body=_cond_assign(st.body, bound), orelse=_cond_assign(st.orelse, bound))
+        elif isinstance(st, (ast.For, ast.While)):
+            st = copy.copy(st)
+            st.body = _cond_assign(st.body, bound)
+        elif isinstance(st, ast.With):
+            st = copy.copy(st)
+            st.body = _cond_assign(st.body, bound)
         if isinstance(st, ast.Assign) and len(st.targets) == 1 and isinstance(st.targets[0], ast.Name):
             bound.add(st.targets[0].id)
         out.append(st)
@@ -726,6 +740,27 @@ def _early_same_exit(stmts):
     return stmts
 
 
+def _leaves(iff):
+    """the statement lists of an if/else tree that can fall through (every `if` on the way has an else); [] if some path has no else"""
+    out = []
+    for branch in (iff.body, iff.orelse):
+        if _terminates(branch):
+            continue
+        if not branch:
+            return []
+        last = branch[-1]
+        if isinstance(last, ast.If):
+            if not last.orelse:
+                return []
+            sub = _leaves(last)
+            if not sub and not (_terminates(last.body) and _terminates(last.orelse)):
+                return []
+            out.extend(sub)
+        else:
+            out.append(branch)
+    return out
+
+
 def _result_var(stmts):
     """<if-chain whose branch ends in `v = A`> ; return v / raise v    ->   the branch ends in `return A` / `raise A`  (tail duplication)"""
     out = list(stmts)
@@ -735,6 +770,15 @@ def _result_var(stmts):
             continue
         val = nxt.value if isinstance(nxt, ast.Return) else (nxt.exc if nxt.cause is None else None)
         if not isinstance(val, ast.Name):
+            # return E(v...) after an if/else whose every falling-through leaf ends in `v = ...` with v read by E: sink the return
+            if isinstance(nxt, ast.Return) and val is not None and s.orelse:
+                names = _names_loaded(val)
+                leaves = _leaves(s)
+                if leaves and all(l and isinstance(l[-1], ast.Assign) and len(l[-1].targets) == 1 and isinstance(l[-1].targets[0], ast.Name) and l[-1].targets[0].id in names for l in leaves):
+                    for l in leaves:
+                        l.append(copy.deepcopy(nxt))
+                    del out[i + 1]
+                    return out
             continue
         v = val.id
 
@@ -887,7 +931,7 @@ def _propagate(fn):
                 src = v.id
                 later_load = any(isinstance(n, ast.Name) and isinstance(n.ctx, ast.Load) and n.id == src and pos.get(id(n), -1) > here for n in order)
                 first = not any(isinstance(n, ast.Name) and n.id == t and pos.get(id(n), -1) < here for n in order)
-                at_top = any(x is st for x in fn.body)
+                at_top = not any(isinstance(lp, (ast.For, ast.While)) and any(x is st for x in ast.walk(lp)) for lp in ast.walk(fn))
                 if not later_load and first and at_top and (src in counts or src in params) and src not in _captured(fn) and t not in _captured(fn):
                     # s is dead from here on and t does not exist before: t simply takes over the name
                     if not later_store:
@@ -2340,6 +2384,22 @@ def substitute(tree, ref, stats=None):
     mod_h_new, mod_h_old = {}, {}
     # module-level helpers first (methods may call module-level helpers that were extracted)
     ni, oi = _scope_items(tree.body), _scope_items(ref.body)
+    # methods that exist on one side only, in any class of the module (a subclass may call a helper extracted into its base class)
+    def class_helpers(items, other_items, table):
+        seen = {}
+        for k, sts in items.items():
+            if k[0] != "class" or len(sts) != 1:
+                continue
+            others = other_items.get(k)
+            o_items = _scope_items(others[0].body) if others and len(others) == 1 else {}
+            for mk, msts in _scope_items(sts[0].body).items():
+                if mk[0] == "def" and mk not in o_items and len(msts) == 1 and not mk[2] and _inlinable(msts[0]):
+                    seen.setdefault(mk[1], []).append((msts[0], _kind(msts[0])))
+        for nm, lst in seen.items():
+            if len(lst) == 1:
+                table.setdefault(nm, lst[0])
+    class_helpers(ni, oi, mod_h_new)
+    class_helpers(oi, ni, mod_h_old)
     for k, sts in ni.items():
         if k[0] == "def" and k not in oi and len(sts) == 1 and _inlinable(sts[0]):
             mod_h_new[k[1]] = (sts[0], "function")
